@@ -94,7 +94,15 @@ pub fn worker(args: &[String]) -> i32 {
         .unwrap_or_default();
     let to: Option<usize> = args.get(9).and_then(|s| s.parse().ok());
     install_panic_hook();
-    let known = KnownFindings::load(&format!("{}/KNOWN_FINDINGS.txt", root_dir()));
+    // The parent stages a copy of the known-findings file in the scratch directory, so that an
+    // unprivileged worker reads the same list whatever the permissions of the checkout are. A
+    // worker that cannot read it is a harness error, never a verdict.
+    let known_path = format!("{}/KNOWN_FINDINGS.txt", scratch);
+    if fs::metadata(&known_path).is_err() {
+        eprintln!("worker: cannot read {}", known_path);
+        return 2;
+    }
+    let known = KnownFindings::load(&known_path);
     let mut monitor = match monitors::make(prop, tier, seed) {
         Some(m) => m,
         None => {
@@ -263,6 +271,10 @@ pub fn run(args: &[String]) -> i32 {
         replay = Some((idx, path.clone()));
     }
     let root = root_dir();
+    if fs::metadata(format!("{}/KNOWN_FINDINGS.txt", root)).is_err() {
+        eprintln!("cannot read {}/KNOWN_FINDINGS.txt (harness error, not a verdict)", root);
+        return 2;
+    }
     let known = KnownFindings::load(&format!("{}/KNOWN_FINDINGS.txt", root));
     let monitor = match monitors::make(&prop, tier, seed) {
         Some(m) => m,
@@ -288,6 +300,28 @@ pub fn run(args: &[String]) -> i32 {
     };
     let is_root = unsafe { libc::geteuid() } == 0;
     let unprivileged = meta.group == Group::Walk && is_root;
+    // Stage what the workers need inside the scratch directory: the known-findings list and, for
+    // unprivileged workers, the executable itself (the checkout may live under a directory that
+    // the unprivileged user cannot traverse).
+    if let Err(e) = fs::copy(format!("{}/KNOWN_FINDINGS.txt", root), format!("{}/KNOWN_FINDINGS.txt", scratch)) {
+        eprintln!("cannot stage KNOWN_FINDINGS.txt from {}: {}", root, e);
+        let _ = fs::remove_dir_all(&scratch);
+        return 2;
+    }
+    let _ = fs::set_permissions(format!("{}/KNOWN_FINDINGS.txt", scratch), fs::Permissions::from_mode(0o644));
+    let exe = if unprivileged {
+        let staged = std::path::PathBuf::from(format!("{}/waxmon-worker", scratch));
+        if let Err(e) = fs::copy(&exe, &staged) {
+            eprintln!("cannot stage worker executable: {}", e);
+            let _ = fs::remove_dir_all(&scratch);
+            return 2;
+        }
+        let _ = fs::set_permissions(&staged, fs::Permissions::from_mode(0o755));
+        staged
+    }
+    else {
+        exe
+    };
     let case_timeout = Duration::from_secs(
         std::env::var("WAXMON_CASE_TIMEOUT")
             .ok()
@@ -317,6 +351,7 @@ pub fn run(args: &[String]) -> i32 {
             Ok(c) => s.child = Some(c),
             Err(e) => {
                 eprintln!("cannot spawn worker: {}", e);
+                let _ = fs::remove_dir_all(&scratch);
                 return 2;
             },
         }
@@ -756,6 +791,10 @@ fn strace_tier(exe: &std::path::Path, seed: u64) -> (Value, Vec<Value>) {
         return (json!({"ran": false, "reason": "cannot create scratch directory"}), Vec::new());
     }
     let scratch_s = scratch.to_string_lossy().to_string();
+    if fs::copy(format!("{}/KNOWN_FINDINGS.txt", root_dir()), format!("{}/KNOWN_FINDINGS.txt", scratch_s)).is_err() {
+        let _ = fs::remove_dir_all(&scratch);
+        return (json!({"ran": false, "reason": "cannot stage KNOWN_FINDINGS.txt"}), Vec::new());
+    }
     let trace = format!("{}/trace.txt", scratch_s);
     let out = format!("{}/shard0.json", scratch_s);
     let status = Command::new("strace")
